@@ -216,6 +216,9 @@ func (f *remoteWrapper) Sync(limitItem proxyv1alpha1.RateLimitItemConfiguration)
 		if max > globalMax {
 			max = globalMax
 		}
+		if max < 0 {
+			max = 0
+		}
 
 		f.Resize(uint32(max), 0)
 		klog.V(2).Infof("[remote limiter] cluster=%q resize flowcontrol schema=[%s], inflight=%v, id=%v",
@@ -226,6 +229,9 @@ func (f *remoteWrapper) Sync(limitItem proxyv1alpha1.RateLimitItemConfiguration)
 		if qps > globalQPS {
 			qps = globalQPS
 		}
+		if qps < 0 {
+			qps = 0
+		}
 
 		f.Resize(uint32(qps), uint32(limitItem.TokenBucket.Burst))
 		klog.V(2).Infof("[remote limiter] cluster=%q resize flowcontrol schema=[%s], rate=%.1f, id=%v",
@@ -235,7 +241,34 @@ func (f *remoteWrapper) Sync(limitItem proxyv1alpha1.RateLimitItemConfiguration)
 	}
 }
 
+// clampLimitItem bounds the quota answered by the limiter server by the locally configured global limit, so that
+// a limiter is never created with more capacity than the schema allows (or with a negative one).
+func clampLimitItem(limitItem proxyv1alpha1.RateLimitItemConfiguration, local proxyv1alpha1.FlowControlSchema) proxyv1alpha1.RateLimitItemConfiguration {
+	switch {
+	case limitItem.MaxRequestsInflight != nil && local.GlobalMaxRequestsInflight != nil:
+		max := limitItem.MaxRequestsInflight.Max
+		if max > local.GlobalMaxRequestsInflight.Max {
+			max = local.GlobalMaxRequestsInflight.Max
+		}
+		if max < 0 {
+			max = 0
+		}
+		limitItem.MaxRequestsInflight = &proxyv1alpha1.MaxRequestsInflightFlowControlSchema{Max: max}
+	case limitItem.TokenBucket != nil && local.GlobalTokenBucket != nil:
+		qps := limitItem.TokenBucket.QPS
+		if qps > local.GlobalTokenBucket.QPS {
+			qps = local.GlobalTokenBucket.QPS
+		}
+		if qps < 0 {
+			qps = 0
+		}
+		limitItem.TokenBucket = &proxyv1alpha1.TokenBucketFlowControlSchema{QPS: qps, Burst: limitItem.TokenBucket.Burst}
+	}
+	return limitItem
+}
+
 func (f *remoteWrapper) newFlowControl(limitItem proxyv1alpha1.RateLimitItemConfiguration, newType proxyv1alpha1.FlowControlSchemaType) GlobalCounterFlowControl {
+	limitItem = clampLimitItem(limitItem, f.flowControlCache.local.Config())
 	f.flowControlCache.globalCounter.Stop(limitItem.Name)
 
 	fc := f.flowControlCache.newMeterFlowControl(toFlowControlSchema(limitItem))
